@@ -72,8 +72,11 @@ JudgeTxSign(e) ==
        devs |->
          CrashDevs(o) \cup
          (IF IsOk(o) THEN
-            (IF cls = "reject" THEN {D({"C13"}, "accepted_malformed", "")}
-             ELSE {D(TxReasonProps(name), name, "") : name \in mm})
+            (IF cls = "reject" THEN {D({"C13"}, "accepted_" \o p.why, "")}
+             ELSE {D(TxReasonProps(name), name, "") : name \in mm}
+                  \* an accepted open spelling whose encoding is not that of the denoted integers: the
+                  \* literal was not taken at its exact value
+                  \cup (IF mm # {} /\ cls = "either" THEN {D({"C13"}, "open_spelling_not_exact", "")} ELSE {}))
           ELSE IF IsErr(o) THEN
             (IF cls = "accept" THEN {D({"C13", "C06"}, "rejected_wellformed", o.err)} ELSE {})
           ELSE IF IsPanic(o) \/ IsTimeout(o) THEN
@@ -185,7 +188,7 @@ JudgeSigParse(e) ==
 \* message : in = [data]   out.ok = [digest]
 JudgeMessage(e) ==
   LET o == e.out
-      m == IF Has(e.in, "rep") THEN [i \in 1..e.in.rep |-> (i * 31 + e.in.rep) % 256] ELSE Hx(e.in.data)
+      m == IF Has(e.in, "big") THEN Rep(e.in.big.rep, Hx(e.in.big.pat)[1]) ELSE Hx(e.in.data)
   IN  [cls |-> "accept",
        devs |-> CrashDevs(o) \cup
          (IF IsOk(o) /\ Hx(o.ok.digest) = PersonalDigest(m) THEN {}
